@@ -10,7 +10,8 @@ Import ListNotations.
 (* ThetaRecord.update written back and re-read: for EVERY record tree whose thetas have a plain layout
    "init [FIX]" or "( [low,] init [,up] ) [FIX | xn]" with white space / newlines anywhere, and every
    parameter list that the guard admits (repeat groups get equal parameters, FIX is not added to a
-   repeat group, the values are representable in NM-TRAN), update succeeds and the regenerated tree
+   repeat group, the values are representable in NM-TRAN; the former conjunct g_spaced is gone since
+   the grammar fix bd27e55), update succeeds and the regenerated tree
    - with the bounds re-lexed the way lark lexes "-inf"/"1000000" - means exactly the new parameters:
    init, lower, upper (with the +-1000000 <=> infinity convention) and FIX. *)
 Theorem theta_update_readback :
